@@ -1927,6 +1927,8 @@ func c10(tier string, r *ev.Run, replay string) {
 		"successors are produced by writing the exact white-box state (page bytes, nextPage, freePage, stats) of the expanded state back into one live tree of identical buffer geometry; every expanded state's history is also executed from scratch (after Reset) and must reach the same state key (counter expanded_states_revalidated_from_scratch), and the first 16 violations per key are re-executed from scratch before being reported",
 		"an in-memory tree after Reset is byte-identical to NewTree (verified at the start of every search and by the Reset transition from every expanded state; if it were not, one NewTree per replay is used)",
 		"Stats() is not judged by C10 (the statement does not mention it)",
+		"growth of the backing buffer inside an operation: for every transition S --Set--> S' of a search that allocates a new pages at the frontier (and reaches a new state), the Set is re-executed from S on a = 1..a independent clones of S (export VerifTreeBuildTight: same page bytes and fields on a calloc buffer with k-1 spare pages and no spare capacity) so that the k-th allocation reallocates and moves the buffer; each clone must first read back exactly the contents of S (self-check of the surgery) and is then judged by the same oracle (counters tight_buffer_probes / ..._where_the_buffer_moved)",
+		"white-box equality with an empty tree is never asserted: when a Reset transition reaches a state that is not byte-identical to an empty tree, that state is additionally refilled with 2*maxKeys+2 ascending and descending Sets under the full oracle (counter reset_states_not_identical_to_empty_tree_refill_probed; 0 on a tree whose Reset is exact)",
 		"long histories: full contents check (Get of every key ever set + probes, IterateKV) after every DeleteBelow/IterateKV, at every growth of the backing buffer, every 8192 Sets and at the end; each Set is checked by Get of that key and of the previous one",
 	}
 }
